@@ -45,3 +45,10 @@ Theorem C08_warm_record_count : forall n p, 0 < n -> 0 < p ->
   Z.of_nat (length (filter (fun k => k mod p =? 0) (zrange 1 n))) = cdiv n p - 1.
 Proof. exact warm_record_count. Qed.
 Print Assumptions C08_warm_record_count.
+
+(** non-vacuity: the executable instance used by the correspondence (Corr/SimInst.v) satisfies the
+    hypothesis of T1, so T1 applies to every scenario the correspondence runs *)
+From Ladim Require Import Corr.SimInst.
+Theorem C08_instance_forcing_idempotent : forall s n v, i_force s n (i_force s n v) = i_force s n v.
+Proof. intros s n v. reflexivity. Qed.
+Print Assumptions C08_instance_forcing_idempotent.
